@@ -8,6 +8,7 @@ import (
 	"os"
 	"os/exec"
 	"path/filepath"
+	"syscall"
 	"testing"
 	"time"
 
@@ -234,6 +235,14 @@ func errClass(err error) string {
 	var ae *armor.Error
 	if errors.As(err, &ae) {
 		return "armor-error"
+	}
+	// the same file gives the same error however it is delivered: io.ErrUnexpectedEOF
+	// (cut short) and an authentication failure are different answers
+	switch {
+	case errors.Is(err, io.ErrUnexpectedEOF):
+		return "error:unexpected-eof"
+	case errors.Is(err, io.EOF):
+		return "error:eof"
 	}
 	return "error"
 }
@@ -594,6 +603,85 @@ func c12CheckCLI(c c12CLI, st *stats.Run) error {
 	return nil
 }
 
+// age -d reading an armored file typed (pasted) into a terminal: the text
+// reaches the command in whatever pieces the terminal hands out; an
+// end-of-file character in the middle of a line flushes a partial line
+type c12TTY struct {
+	PlainLen int   `json:"plainLen"`
+	Splits   []int `json:"splits"` // byte offsets of the armored text at which an end-of-file character is typed
+}
+
+func c12CheckTTY(c c12TTY, st *stats.Run) error {
+	bin := os.Getenv("VERIF_BIN")
+	if bin == "" {
+		return nil
+	}
+	p := hx.ThePool()
+	dir, err := os.MkdirTemp(".", "c12tty-")
+	if err != nil {
+		return pbt.Failf("C12/harness", "%v", err)
+	}
+	dir, _ = filepath.Abs(dir)
+	defer os.RemoveAll(dir)
+	os.WriteFile(filepath.Join(dir, "key.txt"), []byte(refage.Bech32Encode("AGE-SECRET-KEY-", p.X25519[0])+"\n"), 0o600)
+	f, plain := c02Base(c.PlainLen, 33)
+	text := refage.Armor(f.Bytes())
+	st.Case(len(c.Splits) > 0, stats.HashJSON(c), "cli-terminal-input", fmt.Sprintf("cli-terminal-input:splits=%d", len(c.Splits)))
+	st.Sample("cli-terminal-input", c)
+	m, sl, err := hx.OpenPTY()
+	if err != nil {
+		st.Label("inconclusive-pty")
+		return nil
+	}
+	defer m.Close()
+	cmd := exec.Command(filepath.Join(bin, "age"), "-d", "-i", "key.txt")
+	cmd.Dir = dir
+	cmd.Env = []string{"PATH=/nonexistent", "HOME=" + dir}
+	var so, se bytes.Buffer
+	cmd.Stdin, cmd.Stdout, cmd.Stderr = sl, &so, &se
+	cmd.SysProcAttr = &syscall.SysProcAttr{Setsid: true, Setctty: true, Ctty: 0}
+	if err := cmd.Start(); err != nil {
+		sl.Close()
+		st.Label("inconclusive-pty")
+		return nil
+	}
+	sl.Close()
+	go io.Copy(io.Discard, m) // the echo
+	go func() {
+		prev := 0
+		for _, at := range append(append([]int{}, c.Splits...), len(text)) {
+			if at > len(text) {
+				at = len(text)
+			}
+			if at < len(text) && at > 0 && text[at-1] == '\n' {
+				at++ // an end-of-file character at the start of a line would be the end of the input
+			}
+			if at > prev {
+				io.WriteString(m, text[prev:at])
+				time.Sleep(30 * time.Millisecond)
+				if at < len(text) {
+					m.Write([]byte{4}) // end-of-file character: what has been typed so far is handed over as it is
+					time.Sleep(30 * time.Millisecond)
+				}
+			}
+			prev = at
+		}
+	}()
+	done := make(chan error, 1)
+	go func() { done <- cmd.Wait() }()
+	select {
+	case err := <-done:
+		if err != nil || !bytes.Equal(so.Bytes(), plain) {
+			return pbt.Failf("C12/result-depends-on-schedule", "age -d of a valid armored file typed into the terminal, with end-of-file characters after bytes %v of %d: %v, %d bytes of output (stderr %q)", c.Splits, len(text), err, so.Len(), trunc(se.Bytes()))
+		}
+	case <-time.After(20 * time.Second):
+		cmd.Process.Kill()
+		<-done
+		return pbt.Failf("C12/result-depends-on-schedule", "age -d of a valid armored file typed into the terminal, with end-of-file characters after bytes %v of %d, was still waiting for input 20 s after the END line had been typed", c.Splits, len(text))
+	}
+	return nil
+}
+
 func TestC12(t *testing.T) {
 	s := pbt.Start(t, "C12")
 	defer s.Finish()
@@ -650,6 +738,19 @@ func TestC12(t *testing.T) {
 		}
 		s.St.Exhaust("the age command reading standard input that arrives in pieces (byte by byte, 7s, a first piece of 21..35, 100, 200 bytes followed by a pause): armored and binary, valid and damaged inputs, and encryption", int64(n))
 	}, func(c c12CLI) error { return c12CheckCLI(c, s.St) })
+	pbt.Each(s, "cli-terminal-input", func(yield func(c12TTY)) {
+		f, _ := c02Base(100, 33)
+		total := len(refage.Armor(f.Bytes()))
+		endLine := total - len(refage.ArmorFooter) - 1
+		n := 0
+		for _, sp := range [][]int{nil, {endLine + 5}, {total - 1}, {endLine + 1}, {endLine + 3, endLine + 10, endLine + 20}, {10}, {40, 70}} {
+			if s.Mine(n) {
+				yield(c12TTY{PlainLen: 100, Splits: sp})
+			}
+			n++
+		}
+		s.St.Exhaust("age -d with an armored file typed into a terminal: whole lines, and the END line, the BEGIN line and a body line each handed over in two or more parts", int64(n))
+	}, func(c c12TTY) error { return c12CheckTTY(c, s.St) })
 	pbt.Each(s, "pipe", func(yield func(c12Pipe)) {
 		n := 0
 		for _, a := range []bool{false, true} {
@@ -695,7 +796,21 @@ func TestC12(t *testing.T) {
 				}
 			}
 		}
-		s.St.Exhaust("armored files with trailing damage x piecewise deliveries; another file decrypted between Decrypt and the first Read x 4 deliveries; binary boundary files x {valid, extended, truncated} x data+EOF deliveries x read modes", int64(n))
+		// the caller's own buffered reader, small to very large, on files cut at and around every chunk boundary
+		for _, l := range []int{0, chunk, 2 * chunk, 2*chunk + 100} {
+			total := 16 + l + 16*chunksOf(l)
+			cuts := []int{16, 16 + refage.EncChunkSize, 16 + 2*refage.EncChunkSize, total - 1, 15, 16 + refage.EncChunkSize - 1, 16 + refage.EncChunkSize + 1}
+			for _, cut := range cuts {
+				if cut >= total || cut < 0 {
+					continue
+				}
+				for _, bs := range []int{16, 4096, 65536, 65552, 70000, 1 << 20} {
+					yield(c12Dec{PlainLen: l, Seed: 5, Damage: c02Edit{Kind: "trunc", Len: cut}, Delivery: hx.Delivery{Mode: "bufio", BufSize: bs}, Plan: []int{4096}})
+					n++
+				}
+			}
+		}
+		s.St.Exhaust("files cut at and next to every chunk boundary, read through the caller's own bufio.Reader of 16 bytes .. 1 MiB; armored files with trailing damage x piecewise deliveries; another file decrypted between Decrypt and the first Read x 4 deliveries; binary boundary files x {valid, extended, truncated} x data+EOF deliveries x read modes", int64(n))
 	}, dec)
 
 	pbt.Rapid(s, "decrypt-schedule", s.N(1500, 8000), func(t *rapid.T) c12Dec {
